@@ -226,6 +226,11 @@ Section C09_path_reversed.
   Hypothesis ladd_assoc : forall a b c, ladd a (ladd b c) = ladd (ladd a b) c.
   Hypothesis ladd_0 : forall a, ladd lzero a = a.
   Hypothesis rev_len : forall s, len (reversed s) = len s.
+  (* the segment lengths of the reversed path are the reversed list of the segment lengths
+     (what a length cache carried over to the reversed path has to respect) *)
+  Theorem C09_path_reversed_lengths : forall segs : list S,
+    map len (path_reversed reversed segs) = path_reversed (fun x => x) (map len segs).
+  Proof. exact (path_reversed_lens reversed len rev_len). Qed.
   Theorem C09_path_reversed_length : forall segs : list S,
     lsum ladd lzero (map len (path_reversed reversed segs)) = lsum ladd lzero (map len segs).
   Proof. exact (path_reversed_length reversed ladd lzero ladd_comm ladd_assoc ladd_0 len rev_len). Qed.
@@ -300,7 +305,6 @@ Section C09_path_cropped.
     (closed = Ok true -> joined sp ep (last segs d) (hd d segs)) ->
     main segs T0 T1 r0 r1 closed = Ok ps ->
     loc0 N seq atol rtol segs T0 r0 = Ok (i0, t0, i0) -> loc1 N seq atol rtol segs T1 r1 = Ok (i1, t1, i1) ->
-    neqb N t1 (zero N) = true ->
     (ltb N T1 T0 = false -> (i0 < i1)%nat \/ (ltb N T0 T1 = true /\ i0 = i1)) ->
     chained sp ep (piece_segs ps).
   Proof. exact (cropped_joined N crop seq atol rtol pt crop_ends). Qed.
@@ -311,6 +315,74 @@ Section C09_path_cropped.
     forall j p, nth_error ps j = Some p -> (0 < j)%nat -> (Datatypes.S j < length ps)%nat ->
     p_orig p = true /\ nth_error segs (p_idx p) = Some (p_seg p).
   Proof. exact (cropped_middle_originals N crop seq atol rtol). Qed.
+
+  (* ---------- every variant of the code (ix, hw, tz = the three repairs; all false =
+     the pinned code): the result is the assembly of the crop plan = effective (T0, T1)
+     and the two locations; the theorems on the pieces hold for the assembly of ANY plan *)
+  Theorem C09_path_cropped_v_plan : forall ix hw tz segs T0 T1 r0 r1 closed ps,
+    path_cropped_v N crop seq atol rtol ix hw tz segs T0 T1 r0 r1 closed = Ok ps <->
+    exists T0' T1' l0 l1, crop_plan N seq atol rtol ix hw tz segs T0 T1 r0 r1 closed = Ok (T0', T1', l0, l1)
+                          /\ assemble N crop segs T0' T1' closed l0 l1 = Ok ps.
+  Proof. exact (cropped_v_plan N crop seq atol rtol). Qed.
+  Theorem C09_assemble_ends : forall segs T0 T1 closed ps i0 t0 j0 i1 t1 j1 s0 s1 d,
+    assemble N crop segs T0 T1 closed (i0, t0, j0) (i1, t1, j1) = Ok ps ->
+    nth_error segs j0 = Some s0 -> nth_error segs j1 = Some s1 ->
+    neqb N t1 (zero N) = true ->
+    (ltb N T0 T1 = true -> i0 = i1 -> pt s0 t1 = pt s1 t1) ->
+    ps <> [] /\ pt (hd d (piece_segs ps)) (zero N) = pt s0 t0 /\
+    pt (last (piece_segs ps) d) (one N) = pt s1 t1.
+  Proof. exact (cropped_ends_asm N crop pt crop_ends). Qed.
+  Theorem C09_assemble_joined : forall segs T0 T1 closed ps i0 t0 i1 t1 d,
+    chained sp ep segs ->
+    (closed = Ok true -> joined sp ep (last segs d) (hd d segs)) ->
+    assemble N crop segs T0 T1 closed (i0, t0, i0) (i1, t1, i1) = Ok ps ->
+    (ltb N T1 T0 = false -> (i0 < i1)%nat \/ (ltb N T0 T1 = true /\ i0 = i1)) ->
+    chained sp ep (piece_segs ps).
+  Proof. exact (cropped_joined_asm N crop pt crop_ends). Qed.
+  Theorem C09_assemble_middle_originals : forall segs T0 T1 closed i0 t0 j0 i1 t1 j1 ps,
+    assemble N crop segs T0 T1 closed (i0, t0, j0) (i1, t1, j1) = Ok ps ->
+    forall j p, nth_error ps j = Some p -> (0 < j)%nat -> (Datatypes.S j < length ps)%nat ->
+    p_orig p = true /\ nth_error segs (p_idx p) = Some (p_seg p).
+  Proof. exact (cropped_middle_originals_asm N crop). Qed.
+
+  (* ---------- the repaired variants ---------- *)
+  (* ix (indices from T2t): the object cropped is the one at the index used for the ranges,
+     whatever segments compare equal *)
+  Theorem C09_repaired_index_identity : forall hw segs T0 T1 r0 r1 closed T0' T1' i0 t0 j0 i1 t1 j1,
+    plan_main N seq atol rtol true hw segs T0 T1 r0 r1 closed = Ok (T0', T1', (i0, t0, j0), (i1, t1, j1)) ->
+    j0 = i0 /\ j1 = i1.
+  Proof. intros. exact (plan_index_identity N seq atol rtol hw segs T0 T1 r0 r1 closed T0' T1' _ _ H). Qed.
+  (* hw (no hand-over around an end / past the other end): in the forward case the start
+     location is never beyond the end location, given T2t monotone (C05) *)
+  Theorem C09_repaired_forward_order : forall ix segs T0 T1 r0 r1 closed T0' T1' l0 l1,
+    t2t_mono N T0 T1 r0 r1 ->
+    plan_main N seq atol rtol ix true segs T0 T1 r0 r1 closed = Ok (T0', T1', l0, l1) ->
+    ltb N T0' T1' = true -> (fst (fst l0) <= fst (fst l1))%nat.
+  Proof. exact (plan_forward_order N seq atol rtol). Qed.
+  (* tz: on a closed path cropped(T0, 0) is cropped(T0, 1) *)
+  Theorem C09_repaired_T1_zero : forall ix hw segs T0 r0 r1,
+    in01 N T0 = true -> in01 N (zero N) = true -> eqb N T0 (zero N) = false -> eqb N T0 (one N) = false ->
+    eqb N (zero N) (zero N) = true -> ltb N (zero N) T0 = true -> ltb N T0 (one N) = true ->
+    crop_plan N seq atol rtol ix hw true segs T0 (zero N) r0 r1 (Ok true)
+    = plan_main N seq atol rtol ix hw segs T0 (one N) r0 (Ok ((Z.of_nat (length segs) - 1)%Z, one N)) (Ok true).
+  Proof. exact (plan_T1_zero N seq atol rtol). Qed.
+  (* every plan is a plan of the main part (so the two theorems above apply to cropped()) *)
+  Theorem C09_crop_plan_is_main_plan : forall ix hw tz segs T0 T1 r0 r1 closed p,
+    crop_plan N seq atol rtol ix hw tz segs T0 T1 r0 r1 closed = Ok p ->
+    exists T0a T1a r0a r1a, plan_main N seq atol rtol ix hw segs T0a T1a r0a r1a closed = Ok p.
+  Proof. exact (crop_plan_main N seq atol rtol). Qed.
+  (* ix + hw: consecutive pieces are joined for EVERY crop of a continuous path, duplicates
+     and parameters next to joints included (no hypothesis on the locations left) *)
+  Theorem C09_path_cropped_joined_repaired : forall tz segs T0 T1 r0 r1 closed ps d,
+    chained sp ep segs ->
+    (closed = Ok true -> joined sp ep (last segs d) (hd d segs)) ->
+    (forall T0a T1a r0a r1a, t2t_mono N T0a T1a r0a r1a) ->
+    (forall a b : K, ltb N b a = false -> eqb N a b = false -> ltb N a b = true) ->
+    (forall p, crop_plan N seq atol rtol true true tz segs T0 T1 r0 r1 closed = Ok p ->
+               eqb N (fst (fst (fst p))) (snd (fst (fst p))) = false) ->
+    path_cropped_v N crop seq atol rtol true true tz segs T0 T1 r0 r1 closed = Ok ps ->
+    chained sp ep (piece_segs ps).
+  Proof. exact (cropped_joined_repaired N crop seq atol rtol pt crop_ends). Qed.
 
   (* length: sum of the piece lengths = what Path.length(T0,T1) computes from the
      same locations; wrap-around: length(T0,1) + length(0,T1) *)
@@ -424,6 +496,48 @@ Example C09_path_cropped_tiny_prefix_refuted :
   = Ok [(false, 0%nat, 0 # 1, 1 # 1); (true, 1%nat, 0 # 1, 1 # 1); (false, 2%nat, 0 # 1, 1 # 1)].
 Proof. exact crop_tiny_prefix_is_whole_path. Qed.
 
+(* the repaired variants on the refuted inputs *)
+Example C09_repaired_duplicate_segment_example :
+  res_map shape_of (lq_cropped_v true false false twice (qc 2 15) (qc 43 60) (Ok (0%Z, qc 4 5)) (Ok (4%Z, qc 3 10)) (Ok true))
+  = Ok [(false, 0%nat, 4 # 5, 1 # 1); (true, 1%nat, 0 # 1, 1 # 1); (true, 2%nat, 0 # 1, 1 # 1);
+        (true, 3%nat, 0 # 1, 1 # 1); (false, 4%nat, 0 # 1, 3 # 10)]
+  /\ res_map total_len (lq_cropped_v true false false twice (qc 2 15) (qc 43 60) (Ok (0%Z, qc 4 5)) (Ok (4%Z, qc 3 10)) (Ok true))
+     = Ok (7 # 2).
+Proof. exact fixed_duplicate_segment. Qed.
+Example C09_repaired_handover_wraps_example :
+  res_map shape_of (lq_cropped_v false true false stairs T_near1 (qc 1 1) (Ok (2%Z, t_near1)) (Ok (2%Z, qc 1 1)) (Ok false))
+  = Ok [(false, 2%nat, 4194301 # 4194304, 1 # 1)]
+  /\ res_map total_len (lq_cropped_v false true false stairs T_near1 (qc 1 1) (Ok (2%Z, t_near1)) (Ok (2%Z, qc 1 1)) (Ok false))
+     = Ok (3 # 4194304).
+Proof. exact fixed_handover_wraps. Qed.
+Example C09_repaired_across_joint_example :
+  let r := lq_cropped_v false true false stairs (qc 1 3 - eps40)%Qc (qc 1 3 + eps40)%Qc
+                        (Ok (0%Z, (Q2Qc 1 - Q2Qc 3 * eps40)%Qc)) (Ok (1%Z, (Q2Qc 3 * eps40)%Qc)) (Ok false) in
+  res_map shape_of r = Ok [(false, 0%nat, 1099511627773 # 1099511627776, 1 # 1);
+                           (false, 1%nat, 0 # 1, 3 # 1099511627776)]
+  /\ res_map (fun ps => match piece_segs ps with
+                        | [a; b] => ceqb NumQ (lq_pt a (Q2Qc 1)) (lq_pt b (Q2Qc 0))
+                        | _ => false end) r = Ok true.
+Proof. exact fixed_across_joint. Qed.
+Example C09_repaired_tiny_prefix_example :
+  res_map shape_of (lq_cropped_v false true false stairs (qc 0 1) eps40 (Ok (0%Z, qc 0 1)) (Ok (0%Z, (Q2Qc 3 * eps40)%Qc)) (Ok false))
+  = Ok [(false, 0%nat, 0 # 1, 3 # 1099511627776)].
+Proof. exact fixed_tiny_prefix. Qed.
+Example C09_repaired_to_zero_example :
+  res_map shape_of (lq_cropped_v false false true square (qc 7 8) (qc 0 1) (Ok (3%Z, qc 1 2)) (Ok (0%Z, qc 0 1)) (Ok true))
+  = Ok [(false, 3%nat, 1 # 2, 1 # 1)]
+  /\ res_map total_len (lq_cropped_v false false true square (qc 7 8) (qc 0 1) (Ok (3%Z, qc 1 2)) (Ok (0%Z, qc 0 1)) (Ok true))
+     = Ok (1 # 2)
+  /\ res_map shape_of (lq_cropped_v false true false square (qc 7 8) (qc 0 1) (Ok (3%Z, qc 1 2)) (Ok (0%Z, qc 0 1)) (Ok true))
+     = Ok [(false, 3%nat, 1 # 2, 1 # 1)].
+Proof. exact fixed_to_zero. Qed.
+Example C09_repaired_ordinary_unchanged_example :
+  lq_cropped_v true true true square (qc 1 8) (qc 7 8) (Ok (0%Z, qc 1 2)) (Ok (3%Z, qc 1 2)) (Ok true)
+  = lq_cropped square (qc 1 8) (qc 7 8) (Ok (0%Z, qc 1 2)) (Ok (3%Z, qc 1 2)) (Ok true)
+  /\ lq_cropped_v true true true square (qc 7 8) (qc 1 8) (Ok (3%Z, qc 1 2)) (Ok (0%Z, qc 1 2)) (Ok true)
+     = lq_cropped square (qc 7 8) (qc 1 8) (Ok (3%Z, qc 1 2)) (Ok (0%Z, qc 1 2)) (Ok true).
+Proof. exact fixed_ordinary_unchanged. Qed.
+
 Print Assumptions C09_reversed_bezier.
 Print Assumptions C09_reversed_bpoints.
 Print Assumptions C09_reversed_line.
@@ -460,3 +574,18 @@ Print Assumptions C09_path_cropped_handover_wraps_refuted.
 Print Assumptions C09_path_cropped_across_joint_refuted.
 Print Assumptions C09_path_cropped_tiny_prefix_refuted.
 Print Assumptions C09_path_cropped_to_zero_extra_loop_refuted.
+Print Assumptions C09_path_reversed_lengths.
+Print Assumptions C09_path_cropped_v_plan.
+Print Assumptions C09_assemble_ends.
+Print Assumptions C09_assemble_joined.
+Print Assumptions C09_assemble_middle_originals.
+Print Assumptions C09_repaired_index_identity.
+Print Assumptions C09_repaired_forward_order.
+Print Assumptions C09_repaired_T1_zero.
+Print Assumptions C09_crop_plan_is_main_plan.
+Print Assumptions C09_path_cropped_joined_repaired.
+Print Assumptions C09_repaired_duplicate_segment_example.
+Print Assumptions C09_repaired_handover_wraps_example.
+Print Assumptions C09_repaired_across_joint_example.
+Print Assumptions C09_repaired_tiny_prefix_example.
+Print Assumptions C09_repaired_to_zero_example.
